@@ -1,0 +1,142 @@
+//! Verification hook (only compiled with `--cfg audunhalland_entrait_verif`).
+//!
+//! Records one JSON line per macro invocation to `${ENTRAIT_VERIF_DUMP}.<pid>`:
+//! the macro variant entered, a per-process sequence number and the attribute,
+//! input and output token streams, flattened structurally (identifiers,
+//! literals, punctuation with spacing, explicit group open/close markers).
+//! A panic of the macro is recorded (`"panic": "<message>"`) and re-raised.
+
+use proc_macro::{Delimiter, Spacing, TokenStream, TokenTree};
+use std::io::Write;
+use std::sync::atomic::{AtomicUsize, Ordering};
+
+static SEQ: AtomicUsize = AtomicUsize::new(0);
+
+fn flatten(stream: TokenStream, out: &mut Vec<String>) {
+    for tt in stream {
+        match tt {
+            TokenTree::Ident(ident) => out.push(format!("I{ident}")),
+            TokenTree::Literal(lit) => out.push(format!("L{lit}")),
+            TokenTree::Punct(punct) => out.push(format!(
+                "P{}{}",
+                punct.as_char(),
+                match punct.spacing() {
+                    Spacing::Joint => 'j',
+                    Spacing::Alone => 'a',
+                }
+            )),
+            TokenTree::Group(group) => {
+                let (open, close) = match group.delimiter() {
+                    Delimiter::Parenthesis => ("G(", "G)"),
+                    Delimiter::Brace => ("G{", "G}"),
+                    Delimiter::Bracket => ("G[", "G]"),
+                    Delimiter::None => ("G<", "G>"),
+                };
+                out.push(open.to_string());
+                flatten(group.stream(), out);
+                out.push(close.to_string());
+            }
+        }
+    }
+}
+
+fn json_string(s: &str, out: &mut String) {
+    out.push('"');
+    for c in s.chars() {
+        match c {
+            '"' => out.push_str("\\\""),
+            '\\' => out.push_str("\\\\"),
+            '\n' => out.push_str("\\n"),
+            '\r' => out.push_str("\\r"),
+            '\t' => out.push_str("\\t"),
+            c if (c as u32) < 0x20 => out.push_str(&format!("\\u{:04x}", c as u32)),
+            c => out.push(c),
+        }
+    }
+    out.push('"');
+}
+
+fn json_tokens(stream: TokenStream, out: &mut String) {
+    let mut toks = vec![];
+    flatten(stream, &mut toks);
+    out.push('[');
+    for (i, tok) in toks.iter().enumerate() {
+        if i > 0 {
+            out.push(',');
+        }
+        json_string(tok, out);
+    }
+    out.push(']');
+}
+
+/// Wraps `invoke` so that the invocation is recorded; the wrapped function is
+/// called with the very arguments (including the options modifier) of the entry point.
+pub fn hooked<F>(
+    variant: &'static str,
+    inner: fn(TokenStream, TokenStream, F) -> TokenStream,
+) -> impl FnOnce(TokenStream, TokenStream, F) -> TokenStream
+where
+    F: FnOnce(&mut crate::opt::Opts),
+{
+    move |attr, input, opts_modifier| {
+        record(variant, attr, input, move |attr, input| {
+            inner(attr, input, opts_modifier)
+        })
+    }
+}
+
+fn record(
+    variant: &str,
+    attr: TokenStream,
+    input: TokenStream,
+    expand: impl FnOnce(TokenStream, TokenStream) -> TokenStream,
+) -> TokenStream {
+    let path = match std::env::var("ENTRAIT_VERIF_DUMP") {
+        Ok(path) if !path.is_empty() => path,
+        _ => return expand(attr, input),
+    };
+    let seq = SEQ.fetch_add(1, Ordering::SeqCst);
+    let pid = std::process::id();
+
+    let mut line = String::new();
+    line.push_str(&format!("{{\"pid\":{pid},\"seq\":{seq},\"macro\":"));
+    json_string(variant, &mut line);
+    line.push_str(",\"attr\":");
+    json_tokens(attr.clone(), &mut line);
+    line.push_str(",\"input\":");
+    json_tokens(input.clone(), &mut line);
+
+    let result = std::panic::catch_unwind(std::panic::AssertUnwindSafe(|| expand(attr, input)));
+
+    match &result {
+        Ok(output) => {
+            line.push_str(",\"output\":");
+            json_tokens(output.clone(), &mut line);
+        }
+        Err(payload) => {
+            let msg = if let Some(s) = payload.downcast_ref::<&str>() {
+                s.to_string()
+            } else if let Some(s) = payload.downcast_ref::<String>() {
+                s.clone()
+            } else {
+                "<non-string panic payload>".to_string()
+            };
+            line.push_str(",\"output\":[],\"panic\":");
+            json_string(&msg, &mut line);
+        }
+    }
+    line.push_str("}\n");
+
+    if let Ok(mut file) = std::fs::OpenOptions::new()
+        .create(true)
+        .append(true)
+        .open(format!("{path}.{pid}"))
+    {
+        let _ = file.write_all(line.as_bytes());
+    }
+
+    match result {
+        Ok(output) => output,
+        Err(payload) => std::panic::resume_unwind(payload),
+    }
+}
